@@ -655,6 +655,12 @@ func c01Alphabet() []c01HOp {
 		x.doc = d
 		x.refresh()
 	})
+	add("image(format bmp: the call is refused)", func(x *c01Env) {
+		// a refused call is not a failed history: whatever is saved afterwards is judged
+		if _, err := x.doc.AddImageFromData(pngBytes(2, 1, 91), "x.bmp", document.ImageFormat("bmp"), 2, 1, nil); err == nil {
+			x.note += " unsupported-format-accepted"
+		}
+	})
 	// packages whose PACKAGE relationship part is laid out the way other writers do: the main document is not rId1,
 	// property parts are absent or present under other ids (what a property setter adds must not disturb it)
 	for li, name := range c01RootLayoutNames {
